@@ -1198,7 +1198,7 @@ func c20(r *h.Result, rng *h.Rng, tier string, replay string) error {
 		"auth: 34 header classes × 5 configurations (passwords with ':', empty, non-ASCII; padded and unpadded encodings), then near-miss headers (one-edit credentials correctly encoded; the right header with 1–3 byte edits; random payloads); non-trivial = starts with \"Basic \"; distinct by (config, header). " +
 		"mw: 0–5 ResponseWriter calls (WriteHeader from {200,201,204,301,400,401,404,500}, Write of 0–6 bytes, header set/del) under a random sub-chain/order of gzip, CORS, logging and 7 Accept-Encoding values; non-trivial = gzip writer active. " +
 		"portenv: 64 fixed cases (every subset of the four variables × file both/none/user/password), then every source independently absent (2/5) / empty (1/5) / set (2/5), 60 % with arbitrary bytes (no NUL; no ':' in logins), decoy variables 15 % each; non-trivial = login and password supplied by different kinds of sources. " +
-		"config: 8 fixed configurations (file username + QRYN_PASSWORD, QRYN_LOGIN + CLOKI_PASSWORD, file only, file password + CLOKI_LOGIN, CLOKI over QRYN, set-but-empty variable, login only, nothing) then random ones as in portenv with identifier-like values; one start of the real binary each. " +
+		"config: 9 fixed configurations (file username + QRYN_PASSWORD, QRYN_LOGIN + CLOKI_PASSWORD, file only, file password + CLOKI_LOGIN, CLOKI over QRYN, set-but-empty variable, login only, nothing, MODE=gateway) then random ones as in portenv with identifier-like values, 15 % in a MODE other than reader; one start of the real binary each; non-trivial route case = a login and a password were supplied. " +
 		"router: exhaustive over the walked route table — every route × registered method × 14 header classes × Accept-Encoding {none,gzip} × Origin {none,set}, plus unregistered methods, sibling paths and catch-all probes, for 4 assemblies (auth+CORS, auth, auth+CORS+view-shaped routes, no auth)"
 	c20Setup()
 	if replay != "" {
